@@ -74,6 +74,10 @@ def run(ck, n_gen=None):
     if os.path.exists(cpath):
         return json.load(open(cpath))
     outs = ck.rt_batch(["run " + hexs(t) for t in texts], binary="inproc", harness="inproc")
+    if outs and outs[0] == "unavailable":
+        # the in-process harness does not build on this tree (reported once by build_harness): nothing to compare, nothing cached
+        return dict(stats={"corpus": n_corpus, "edge": len(EDGE), "generated": n_gen, "accepted": 0, "rejected": 0, "panicked": 0, "tokens_compared": 0, "unavailable": len(texts)},
+                    mismatches=[], n_mismatches=0)
     lreq, idx = [], []
     stats = {"corpus": n_corpus, "edge": len(EDGE), "generated": n_gen, "accepted": 0, "rejected": 0, "panicked": 0, "tokens_compared": 0}
     mism = []
